@@ -126,3 +126,39 @@ Proof.
   apply Rle_trans with 1; [change 1 with (bpow radix2 0); apply bpow_le; lia|].
   unfold Q2R. cbn. lra.
 Qed.
+
+(* round 6 — C20_volt64_accepts / C20_float_code_range_ends / _in_code_range: amplitude = the binary64 number 0.9 (not dyadic-
+   simple: 8106479329266893 / 2^53), 16 bit — a pair for which the scaled upper end computed WITHOUT the theorem's order of
+   operations overshoots 65535 (seed C20-9); the model returns codes, both range ends are in the list and satisfy the
+   hypotheses b64 (v - off) == +-amp, the middle voltage gets 32768 *)
+Definition amp09 : Q := 8106479329266893 # 9007199254740992.
+Example volt64_nonvacuous :
+  bpow radix2 (-500) <= Q2R amp09 <= bpow radix2 500 /\ (1 <= 16 <= 16)%Z
+  /\ volt_public64 amp09 0 16 [- amp09; 0; amp09]%Q = ORet [0; 32768; 65535]%Z
+  /\ (b64 (amp09 - 0) == amp09)%Q /\ (b64 (- amp09 - 0) == - amp09)%Q.
+Proof.
+  split; [|split; [lia|split; [vm_compute; reflexivity|split; vm_compute; reflexivity]]].
+  pose proof bpow_m500_le_1. pose proof one_le_bpow_500.
+  assert (/ 2 <= Q2R amp09 <= 1) by (unfold Q2R, amp09; cbn; lra).
+  assert (bpow radix2 (-500) <= / 2).
+  { replace (/ 2) with (bpow radix2 (-1)) by (cbn; lra). apply bpow_le. lia. }
+  lra.
+Qed.
+
+(* round 6 — C20_shrink_model_passes_checker / C20_volt_model_passes_checker: the checkers are not trivially true.  Nested windows
+   [(0,5); (2,3)]: the model fails and the checker demands the failure (a result that empties the second window is refused);
+   three windows with a chained shrink: the model's result is accepted, one that moves a begin further than needed or drops the
+   flag is refused.  Voltages: the model's codes are accepted, a code off by one is refused.  Windows: see the comments. *)
+Example checkers_nonvacuous :
+  shrink_loop [(0, 5); (2, 3)]%Z = OErr
+  /\ spec_shrink [(0, 5); (2, 3)]%Z (ORet ([(0, 5); (5, 0)]%Z, true)) = false
+  /\ spec_shrink [(0, 3); (2, 4); (5, 2)]%Z (ORet ([(0, 3); (3, 3); (6, 1)]%Z, true)) = true
+  /\ spec_shrink [(0, 3); (2, 4); (5, 2)]%Z (ORet ([(0, 3); (4, 2); (6, 1)]%Z, true)) = false
+  /\ spec_shrink [(0, 3); (2, 4); (5, 2)]%Z (ORet ([(0, 3); (3, 3); (6, 1)]%Z, false)) = false
+  /\ (0 < 1)%Q /\ spec_volt 1 0 4 [0; 1 # 2; -(1)]%Q (ORet [8; 11; 0]%Z) = true
+  /\ spec_volt 1 0 4 [0; 1 # 2; -(1)]%Q (ORet [8; 12; 0]%Z) = false
+  /\ spec_volt 1 0 4 [0; 3 # 2]%Q (ORet [8; 15]%Z) = false
+  /\ spec_tw 1 [(5 # 2, 3 # 2); (1 # 2, 1)]%Q [(0, 1); (2, 1)]%Z = true           (* unsorted input, ties to even, floor *)
+  /\ spec_tw 1 [(5 # 2, 3 # 2); (1 # 2, 1)]%Q [(2, 1); (0, 1)]%Z = false          (* input order kept: not sorted by begin *)
+  /\ spec_tw 1 [(5 # 2, 3 # 2); (1 # 2, 1)]%Q [(1, 1); (2, 1)]%Z = false.         (* 1/2 rounded up: not the even neighbour *)
+Proof. vm_compute. repeat split; reflexivity. Qed.
